@@ -23,9 +23,10 @@ LIB = {
     "Opt": "class Opt(No, So(int)) {\n  function of(x: int): Opt = if x % 2 == 0 { Opt.So(x) } else { Opt.No() }\n}",
     "Fig": "class Fig(Ca(Box), Sq(Box), Dt) {\n  function of(x: int, y: int): Fig = if x % 3 == 0 { Fig.Ca(Box.init(x, y)) } else { if x % 3 == 1 { Fig.Sq(Box.init(y, x)) } else { Fig.Dt() } }\n}",
     "Wr": "class Wr(Wa(Sh), Wb(int)) {\n  function of(x: int): Wr = if x % 4 == 0 { Wr.Wb(x) } else { if x % 4 == 1 { Wr.Wa(Sh.Ci(x)) } else { if x % 4 == 2 { Wr.Wa(Sh.Re(x, 1)) } else { Wr.Wa(Sh.Em()) } } }\n}",
+    "Maybe": "class Maybe<T>(Nothing, Just(T)) {\n  method getOr(d: T): T = match this { Nothing -> d, Just(v) -> v }\n}",
     "Cell": "class Cell<T>(val v: T) {\n  method <R> map(f: (T) -> R): Cell<R> = Cell.init(f(this.v))\n  method get(): T = this.v\n}",
 }
-LIB_ORDER = ["Box", "Sh", "Opt", "Fig", "Wr", "Cell"]
+LIB_ORDER = ["Box", "Sh", "Opt", "Fig", "Wr", "Maybe", "Cell"]
 
 HELPERS = [
     "  function <T> id(x: T): T = x",
@@ -35,11 +36,16 @@ HELPERS = [
     "  function <A, B> app2(f: (A, B) -> int, a: A, b: B): int = f(a, b)",
     "  function <T> twice(f: (T) -> T, x: T): T = f(f(x))",
     "  function <A, B> pipe(x: A, f: (A) -> B): B = f(x)",
+    "  function <T> pick(a: T, b: T, c: bool): T = if c { a } else { b }",
+    "  function <A> count(f: (A) -> int): int = 7",
 ]
 
 
 def gc(name, args, ntp=0, prefix=None, explicit=False):
-    return ("gcall", name, args, explicit, ntp, prefix)
+    """ntp: number of type parameters (all instantiated at int) or the list of type-argument texts;
+    0 / []: not an annotation site"""
+    targs = ["int"] * ntp if isinstance(ntp, int) else list(ntp)
+    return ("gcall", name, args, explicit, targs, prefix)
 
 
 class Gen:
@@ -182,7 +188,7 @@ class Gen:
                 self.broke = True
                 return ("raw", "true")
             return ("lit", r.range(0, 9))
-        k = r.below(22)
+        k = r.below(26)
         d = depth - 1
         if k <= 1:
             return ("bin", r.pick(["+", "-", "*"]), self.int_expr(env, d), self.int_expr(env, d))
@@ -280,8 +286,54 @@ class Gen:
         if k == 18:
             self.forms.add("generic-nested")
             return gc("Main.comb", [self.lam(env, d, 2), gc("Main.id", [self.int_expr(env, d)], 1)], 1)
+        if k in (19, 20):
+            return self.hidden_placeholder_arg(env, d)
+        if k == 21 and self.broken == "underconstrained" and not self.broke:
+            # a nested generic call whose type parameter does not occur in its result type: genuinely
+            # underconstrained (rejected), also with explicit type arguments on the outer call
+            self.broke = True
+            self.forms.add("generic-phantom-parameter")
+            x = self.fresh()
+            inner = gc("Main.count", [("lam", [(x, False)], ("lit", 1))], 0)
+            return gc("Main.pick", [inner, self.int_expr(env, d), ("raw", "true")], 1)
         self.forms.add("method")
         return ("raw2", "Box.mk(", [self.int_expr(env, d)], ").sum()")
+
+    def hidden_placeholder_arg(self, env, d):
+        """generic call with inferred type arguments one of whose arguments is a match / if-else /
+        block whose first branch is concrete and a later branch needs the contextual type
+        (`Process.panic(..)`, `Maybe.Nothing()`): the place where the checker's synthesis phase
+        produces a placeholder that is not visible in the argument's own type"""
+        r = self.rng
+        mkcond = lambda: ("bin", r.pick(["<", "==", ">="]), self.int_expr(env, d), self.int_expr(env, d))
+        x, w = self.fresh(), self.fresh()
+        if r.chance(1, 2):
+            self.forms.add("generic-arg-match-panic")
+            panic = gc("Process.panic", [("raw", '"boom"')], 1)
+            shape = r.below(3)
+            if shape == 0:
+                arg = ("match", self.sh_expr(env, d),
+                       [(("pvar", "Ci", [("pid", x)]), self.int_expr(env + [x], d)),
+                        (("pvar", "Re", [("pid", w), ("pwild",)]), self.int_expr(env + [w], d)),
+                        (("pvar", "Em", []), panic)])
+            elif shape == 1:
+                arg = ("if", mkcond(), self.int_expr(env, d), panic)
+            else:
+                t = self.fresh()
+                arg = ("block", [("let", ("pid", t), self.int_expr(env, d), False)],
+                       ("match", ("raw2", "Opt.of(", [("var", t)], ")"),
+                        [(("pvar", "So", [("pid", x)]), ("var", x)), (("pvar", "No", []), panic)]))
+            args = [arg, self.int_expr(env, d), ("bin", "<", self.int_expr(env, d), self.int_expr(env, d))]
+            if r.chance(1, 3):
+                args[0], args[1] = args[1], args[0]
+            return gc("Main.pick", args, 1)
+        self.forms.add("generic-arg-match-nothing")
+        arg = ("match", self.sh_expr(env, d),
+               [(("pvar", "Ci", [("pid", x)]), gc("Maybe.Just", [("var", x)], 1)),
+                (("pvar", "Re", [("pid", w), ("pwild",)]), gc("Maybe.Just", [self.int_expr(env + [w], d)], 1)),
+                (("pvar", "Em", []), gc("Maybe.Nothing", [], 1))])
+        pick = gc("Main.pick", [arg, gc("Maybe.Just", [self.int_expr(env, d)], 1), mkcond()], ["Maybe<int>"])
+        return ("post", pick, ".getOr(" + str(r.range(0, 9)) + ")")
 
     def sh_expr(self, env, d):
         k = self.rng.below(3)
@@ -359,7 +411,7 @@ def expr_s(e):
     if k == "call":
         return expr_s(e[1]) + "(" + ", ".join(expr_s(x) for x in e[2]) + ")"
     if k == "gcall":
-        targs = "<" + ", ".join(["int"] * e[4]) + ">" if e[3] and e[4] else ""
+        targs = "<" + ", ".join(e[4]) + ">" if e[3] and e[4] else ""
         pre = expr_s(e[5]) + "." if e[5] is not None else ""
         return pre + e[1] + targs + "(" + ", ".join(expr_s(x) for x in e[2]) + ")"
     if k == "post":
@@ -501,7 +553,7 @@ def annotation_sites(p):
                     if not s[3]:
                         sites.append(("let", cnt["let"]))
                     cnt["let"] += 1
-        elif e[0] == "gcall" and e[4] > 0:
+        elif e[0] == "gcall" and e[4]:
             if not e[3]:
                 sites.append(("targs", cnt["targs"]))
             cnt["targs"] += 1
@@ -528,7 +580,7 @@ def annotate(p, chosen):
                 else:
                     out.append(s)
             return ("block", out, e[2])
-        if e[0] == "gcall" and e[4] > 0:
+        if e[0] == "gcall" and e[4]:
             i = cnt["targs"]; cnt["targs"] += 1
             return ("gcall", e[1], e[2], e[3] or ("targs", i) in chosen, e[4], e[5])
         return e
